@@ -91,9 +91,9 @@ class ShuffleSequence(_Rearrange):
 
     @property
     def models(self):
-        return (install_seq, self.install)
+        return (install_seq, self.install_models)
 
-    def install(self, reg):
+    def install_models(self, reg):
         c = self
 
         def sample(I, a, k):
@@ -230,9 +230,9 @@ class FindFixedIndices(Contract):
 
     @property
     def models(self):
-        return (self.install,)
+        return (self.install_models,)
 
-    def install(self, reg):
+    def install_models(self, reg):
         c = self
         reg.ctor_('AminoAcidSeqRecord', lambda I, a, k: SymObj('AARecStub', seq=a[0]))
 
@@ -349,9 +349,9 @@ class GenerateDecoy(Contract):
 
     @property
     def models(self):
-        return (self.install,)
+        return (self.install_models,)
 
-    def install(self, reg):
+    def install_models(self, reg):
         c = self
 
         def fixed(I, o, a, k):
@@ -464,9 +464,9 @@ class DecoyMain(Contract):
 
     @property
     def models(self):
-        return (self.install,)
+        return (self.install_models,)
 
-    def install(self, reg):
+    def install_models(self, reg):
         c = self
         ev = lambda: c._cur.events
         reg.ext_('open', lambda I, a, k: SymObj('File'))
